@@ -12,6 +12,10 @@ Obligation(r) ==
     [] r.e = "mono" -> MonoOK(r)
     [] r.e = "path" -> IF r.fi >= 0 THEN PathLatticeOK(r) ELSE PathOK(r)
     [] r.e = "taux" -> TauxOK(r)
+    [] r.e = "tdp" -> TdpOK(r)
+    [] r.e = "ang" -> AngOK(r)
+    [] r.e = "angl" -> AngLatticeOK(r)
+    [] r.e = "sing" -> SingOK(r)
     [] r.e = "rad" -> RadOK(r)
     [] r.e = "dd" -> DdOK(r)
     [] r.e = "elq" -> ElqOK(r)
@@ -25,7 +29,7 @@ Obligation(r) ==
     [] OTHER -> FALSE
 
 Expected(r) ==
-  CASE r.e \in {"cv", "den", "rtp", "taux", "rad", "elq", "elm", "elf"} -> <<"TolTan", TolTan(r.F)>>
+  CASE r.e \in {"cv", "den", "rtp", "taux", "tdp", "rad", "elq", "elm", "elf"} -> <<"TolTan", TolTan(r.F)>>
     [] r.e \in {"se", "odd", "mono", "path"} -> <<"TolTan", TolTan(r.F), "TolSer", TolSer(r.a, r.b)>>
     [] r.e = "ell" -> <<"TolAng", TolAng(r.F)>>
     [] r.e \in {"ec", "ei"} -> <<"E3Tol", E3Tol(r)>>
